@@ -68,7 +68,7 @@ func (c19) Meta() core.Meta {
 			"an error delivered together with the last byte of the final draw may be either ignored or reported (io.ReadFull semantics)",
 			"the private-key output of GenerateKey on error is not judged (statement speaks of public key and signature)"},
 		FaultKinds: []string{"short", "stall", "err-EOF", "err-UnexpectedEOF", "err-custom", "err-*-with-some-bytes", "err-*-with-all-bytes", "sticky-err", "nil-reader"},
-		ProbeNames: []string{"twin_failed", "error_expected", "either_accepted", "success_expected", "rejected_prefix>=2", "solved_rejection"},
+		ProbeNames: []string{"error_expected", "either_accepted", "success_expected", "rejected_prefix>=2", "solved_rejection"},
 		StepUnit:   "reader calls + library calls",
 	}
 }
